@@ -835,7 +835,7 @@ async fn run_case(line: String) -> String {
         _ => launch!(hyperdriver::server::conn::auto::Builder::default()),
     };
 
-    let mut w = World { log: log.clone(), sockets: match transport { "tcp" => (10, 12), "unix" => (3, 6), _ => (0, 0) }, tls, dial, clients: Vec::new(), gates, stop };
+    let mut w = World { log: log.clone(), sockets: match transport { "tcp" => (10, 12), "unix" => (2, 5), _ => (0, 0) }, tls, dial, clients: Vec::new(), gates, stop };
     for tok in &f[3..] {
         match *tok {
             "G" => {
